@@ -446,17 +446,17 @@ def stratified(entries, rng, n=QUICK_CONFIGS):
 
 def _guarded(fn, *a):
     """Run under the watchdog of harness/dispatch.py (a mutated library must not hang the check)."""
-    old = signal.signal(signal.SIGALRM, dispatch._alarm)
-    signal.setitimer(signal.ITIMER_REAL, dispatch.RUN_LIMIT_S)
+    old = signal.signal(signal.SIGPROF, dispatch._alarm)          # CPU time, not wall-clock (busy machines)
+    signal.setitimer(signal.ITIMER_PROF, dispatch.RUN_LIMIT_S)
     try:
         return fn(*a)
     except dispatch._Watchdog:
-        return dict(harness_error=f"no result within {dispatch.RUN_LIMIT_S}s")
+        return dict(harness_error=f"no result within {dispatch.RUN_LIMIT_S}s of CPU time")
     except Exception:  # noqa: harness failure, reported as such
         return dict(harness_error=traceback.format_exc()[-800:])
     finally:
-        signal.setitimer(signal.ITIMER_REAL, 0)
-        signal.signal(signal.SIGALRM, old)
+        signal.setitimer(signal.ITIMER_PROF, 0)
+        signal.signal(signal.SIGPROF, old)
 
 
 def _work(chunk):
